@@ -312,6 +312,8 @@ def run(ctx):
     def replayer(ctx2, ob, model):
         return _replay.run_native('c15.py', {'obligation': ob.name}, timeout=300)
     ctx.replayers['*'] = replayer
+    ctx.native_crosschecks.append(('c15.py', {'obligation': 'sopclass.storage_scu#'}, 'storage user/provider'))
+    ctx.native_crosschecks.append(('c15.py', {'obligation': 'pynetdicom2._get_storage_file#'}, 'repeated stores into a scratch directory'))
     ctx.assumptions += [
         'transport of the request and of the response is C06 (fragmentation, both sources) and C07 (reassembly, both '
         'sinks); correlation of the response is C17; the end-to-end statement is the composition of these contracts',
